@@ -356,6 +356,23 @@ func runISOCase(c *isoCase, t *treeSpec) (sig, msg, outcome string) {
 	if s, m := cmp("readback|"+tag, gotDirs, got); s != "" {
 		return s, m, "mismatch"
 	}
+	// the same files through several handles that are open at once and take turns (names as the image reports them)
+	if !collide && len(wantFiles) <= 64 {
+		var ires string
+		if pm := guard(func() {
+			rfs, e := img.open(true)
+			if e != nil {
+				ires = e.Error()
+				return
+			}
+			ires = interleavedRead(rfs, wantFiles, 1000)
+		}); pm != "" {
+			return "readback|" + tag + "|interleaved|" + pm, "reading through several open handles panicked: " + pm, "panic"
+		}
+		if ires != "" {
+			return "readback|" + tag + "|interleaved-handles", ires, "mismatch"
+		}
+	}
 	// (2) independent reader of the PVD tree: always the plain (8.3) names
 	ck := isock.Check(img.Dev, img.Start, img.Size)
 	if len(ck.Problems) > 0 {
